@@ -160,7 +160,10 @@ macro_rules! arr_any {
 }
 arr_any!(1: [0], 2: [0 1], 3: [0 1 2], 4: [0 1 2 3], 5: [0 1 2 3 4], 6: [0 1 2 3 4 5],
          7: [0 1 2 3 4 5 6], 8: [0 1 2 3 4 5 6 7], 9: [0 1 2 3 4 5 6 7 8],
-         12: [0 1 2 3 4 5 6 7 8 9 10 11], 16: [0 1 2 3 4 5 6 7 8 9 10 11 12 13 14 15]);
+         10: [0 1 2 3 4 5 6 7 8 9], 11: [0 1 2 3 4 5 6 7 8 9 10],
+         12: [0 1 2 3 4 5 6 7 8 9 10 11], 13: [0 1 2 3 4 5 6 7 8 9 10 11 12], 14: [0 1 2 3 4 5 6 7 8 9 10 11 12 13],
+         15: [0 1 2 3 4 5 6 7 8 9 10 11 12 13 14], 16: [0 1 2 3 4 5 6 7 8 9 10 11 12 13 14 15],
+         20: [0 1 2 3 4 5 6 7 8 9 10 11 12 13 14 15 16 17 18 19]);
 
 #[inline(always)]
 pub fn any<T: Any>() -> T {
